@@ -85,6 +85,7 @@ type c14Case struct {
 	Pass        passSpec  `json:"pass"`
 	After       string    `json:"after,omitempty"` // "" | flush | rotate : keep using the server after the passes
 	Restart     bool      `json:"restart,omitempty"`
+	PreRestart  bool      `json:"preRestart,omitempty"` // restart between the last rotation and the open segments / the pass
 	// crash-point cases only
 	CrashLabel string `json:"crashLabel,omitempty"`
 	CrashK     int64  `json:"crashK,omitempty"`
@@ -396,6 +397,7 @@ func genTimeCase(t *rapid.T) *c14Case {
 	cs.Pass.Reps = []int{1, 2, 1, 3}[rapid.IntRange(0, 3).Draw(t, "reps")]
 	cs.After = []string{"", "flush", "rotate", ""}[rapid.IntRange(0, 3).Draw(t, "after")]
 	cs.Restart = rapid.IntRange(0, 3).Draw(t, "restart") == 0
+	cs.PreRestart = rapid.IntRange(0, 2).Draw(t, "preRestart") == 0
 	return cs
 }
 
@@ -424,5 +426,6 @@ func genVolumeCase(t *rapid.T) *c14Case {
 	cs.Pass.Reps = []int{1, 2, 1, 3}[rapid.IntRange(0, 3).Draw(t, "reps")]
 	cs.After = []string{"", "flush", "rotate", ""}[rapid.IntRange(0, 3).Draw(t, "after")]
 	cs.Restart = rapid.IntRange(0, 3).Draw(t, "restart") == 0
+	cs.PreRestart = rapid.IntRange(0, 2).Draw(t, "preRestart") == 0
 	return cs
 }
